@@ -16,7 +16,29 @@ FAMILIES = {
 }
 
 
+POST = {"spec": None, "alive": []}     # see construct_then(): one more instance is built right after the next one
+
+
+def construct_then(family, arg, after_family, after_arg):
+    """Arrange that right after the NEXT construct(family, arg) another instance (after_family, after_arg) is built
+    and evaluated once - a younger sibling that stays alive while the first one is used."""
+    POST["spec"] = (family, arg, after_family, after_arg)
+    POST["alive"] = []
+
+
 def construct(family, arg):
+    p = _construct(family, arg)
+    spec = POST["spec"]
+    if spec is not None and (family, arg) == spec[:2]:
+        POST["spec"] = None
+        q = _construct(spec[2], spec[3])
+        pt, _ = declared(q)
+        real_eval(q, pt)
+        POST["alive"].append(q)
+    return p
+
+
+def _construct(family, arg):
     if family == "hill":
         from iOpt.problems.hill import Hill
         return Hill(arg)
@@ -44,10 +66,13 @@ def construct(family, arg):
     raise ValueError(family)
 
 
-def real_eval(problem, y, ftype=None, fid=None):
-    """Value of the real Calculate at y (fresh holder, fresh point array)."""
+def real_eval(problem, y, ftype=None, fid=None, dirty=None):
+    """Value of the real Calculate at y (fresh point array; fresh holder, or with `dirty` a holder that already
+    holds that value, as a caller re-using one FunctionValue does)."""
     from iOpt.trial import FunctionValue, Point, FunctionType
     fv = FunctionValue() if ftype is None else FunctionValue(ftype, fid)
+    if dirty is not None:
+        fv.value = dirty
     out = problem.Calculate(Point(np.array(y, dtype=np.double), []), fv)
     return float(out.value)
 
